@@ -51,7 +51,7 @@ Init ==
   /\ sent = [s \in 1..MaxK |-> 0]
   /\ psrc \in {x \in PanicSrcs : x <= m.k}
   /\ sync \in {x \in SyncEnds : x.s <= m.k /\ (x.k = "V" => (x.s >= 2 /\ m.op \in {"Merge", "CombineLatest", "Zip", "Race"}))}
-  /\ tail \in (IF m.op \in {"WindowWhen", "GroupBy", "GroupByLeave"} THEN {"none"} ELSE Tails)
+  /\ tail \in (IF m.op \in {"WindowWhen", "GroupBy", "GroupByLeave", "GroupByCut"} THEN {"none"} ELSE Tails)
 
 \* k = "V": while source sync.s is being subscribed, the FIRST source (already subscribed: these operators subscribe in order) emits its first value
 SyncFrom == IF sync.k = "V" THEN 1 ELSE sync.s
